@@ -8,6 +8,7 @@ from __future__ import annotations
 from hypothesis import strategies as st
 
 from harness import pyo
+from harness import zones as Z
 from harness.core import CaseInfo, Ctx, InvalidCase, Mismatch, Task, sub_seed
 from harness.gen import ints_biased, run_hypothesis
 
@@ -53,7 +54,7 @@ def inst(i: int):
 
 
 def inst_ns(x) -> int:
-    return x._time_since_epoch.to_nanoseconds()
+    return Z.ns(x)  # also asserts the normal form of the day / nanosecond-of-day split
 
 
 def zone_for(zid: str):
